@@ -226,8 +226,6 @@ pub fn mask2_case(sink: &mut Sink, s: &mut Stream, kind: &str, l: &MaskSpec, r: 
         None => sink.oracle_ok(),
         Some(w) => sink.oracle_fail(None, &format!("RowIdMask: {w}"), human.clone()),
     }
-    // PLANTED BREAKAGE (sanity test of the check, to be removed): record the pre-0357916 output for one corpus case
-    let or_out = if kind == "corpus:F2 all_rows | from_block({0})" { "(Ok (None, Some [(0, Partial (Pos [0]))]))".to_string() } else { or_out };
     s.push(inp, format!("({}, {})", coq_mask(&and_obs), or_out), human);
 }
 
@@ -260,7 +258,7 @@ pub fn run(args: &Args, sink: &mut Sink, rng: &mut Rng, budget: &mut FullBudget)
         "(option treemap * option treemap) * list N",
         "(option treemap * option treemap) * (option treemap * option treemap) * list bool * option N * option (list N)",
     );
-    s.shard = 800;
+    s.shard = 300;
     // corpus: DESIGN §6 F2 inputs first
     let corpus1: Vec<(&str, MaskSpec)> = vec![
         ("corpus:F2 !all_rows", ms(None, None)),
@@ -297,7 +295,7 @@ pub fn run(args: &Args, sink: &mut Sink, rng: &mut Rng, budget: &mut FullBudget)
         "(option treemap * option treemap) * (option treemap * option treemap)",
         "(option treemap * option treemap) * outcome (option treemap * option treemap)",
     );
-    s.shard = 800;
+    s.shard = 300;
     let corpus2: Vec<(&str, MaskSpec, MaskSpec)> = vec![
         ("corpus:F2 all_rows | from_block({0})", ms(None, None), ms(None, Some(p(0, &[0])))),
         ("corpus:F2 from_block({0}) | all_rows", ms(None, Some(p(0, &[0]))), ms(None, None)),
@@ -335,7 +333,7 @@ pub fn run(args: &Args, sink: &mut Sink, rng: &mut Rng, budget: &mut FullBudget)
         }
     }
     // 2 fragments x 1 offset: 9 maps (no empty bitmap), 100 masks, 10^4 ordered pairs; quick runs a
-    // seed-dependent eighth.  Thorough adds the 16-map universe with empty bitmaps (289 masks), a quarter of it.
+    // seed-dependent eighth.  Thorough adds the 16-map universe with empty bitmaps (289 masks), an eighth of it.
     let m2 = all_masks(&all_specs(&[0, 1], &[0], false));
     let mut k = 0u64;
     for l in &m2 {
@@ -352,7 +350,7 @@ pub fn run(args: &Args, sink: &mut Sink, rng: &mut Rng, budget: &mut FullBudget)
         for l in &m3 {
             for r in &m3 {
                 k += 1;
-                if (k + args.seed) % 4 != 0 {
+                if (k + args.seed) % 8 != 0 {
                     continue;
                 }
                 mask2_case(sink, &mut s, "exhaustive-2x1-with-empty", l, r, budget);
@@ -375,7 +373,7 @@ pub fn run(args: &Args, sink: &mut Sink, rng: &mut Rng, budget: &mut FullBudget)
         "(option treemap * option treemap) * treemap",
         "(option treemap * option treemap) * (option treemap * option treemap)",
     );
-    s.shard = 800;
+    s.shard = 300;
     let mut cases: Vec<(MaskSpec, Spec)> = vec![
         (ms(None, None), p(0, &[0, 5, 15])),
         (ms(None, None), vec![]),
@@ -435,7 +433,7 @@ pub fn run(args: &Args, sink: &mut Sink, rng: &mut Rng, budget: &mut FullBudget)
 
     // ------------------------------------------------------------------ selected_indices
     let mut s = Stream::new("selidx", REQ, "chk_selidx", "(option treemap * option treemap) * list N", "outcome (list N)");
-    s.shard = 800;
+    s.shard = 300;
     let mut cases: Vec<(MaskSpec, Vec<u64>)> = vec![(ms(None, None), vec![1, 2]), (ms(None, None), vec![]), (ms(Some(p(0, &[1, 3])), None), vec![3, 3, 0, 1]), (ms(Some(p(0, &[1, 3])), Some(p(0, &[3]))), vec![3, 1, 1])];
     for _ in 0..args.vol(150, 2500) {
         let pool = Pool::rand(rng, (1, 3), (2, 8));
